@@ -77,7 +77,8 @@ def spelling(draw, segs: list[str], root_name: str = "capsule", hostile=True):
             parts.insert(pos, ".")
             labels.append("dot")
         elif op == "updown":
-            parts[pos:pos] = [draw(st.sampled_from(["zz", "public", "private", "sub", "%ff", "%c0%af", "%E2%28", "%zz", "a%00b"])), ".."]
+            parts[pos:pos] = [draw(st.sampled_from(["zz", "public", "private", "sub", "%ff", "%c0%af", "%E2%28", "%zz", "a%00b",
+                                                    "x;y", ";", "public;v=2", "a?b".replace("?", "%3F"), "c#d".replace("#", "%23")])), ".."]
             labels.append("dotdot")
         elif op == "updown-mixed":
             # down one (or two) segments and up again, the way up written half literally and half encoded
